@@ -12,8 +12,12 @@ BODIES = [
     # a unary operator in front of an intrinsic reference, with and without the blank
     "x = - sin(y)", "x = -sin(y)", "l = .not. present(b)", "l = .not.present(b)", "n = - size(a, dim=1)",
     "x = + abs(y) - (- max(a, b))", "if (.not. allocated(a)) x = - huge(1)", "x = .myop. sin(y)", "x = -  f(y) ** (- 2)",
+    # subscript triplets: every combination of present / absent lower bound, upper bound and stride
+    "x = a(:)", "x = a(1:)", "x = a(:n)", "x = a(1:n)", "x = a(::2)", "x = a(1::2)", "x = a(:n:2)", "x = a(1:n:2)",
+    "x = a(i, :n-1:k)", "a(1:n:(k+1)) = 0", "x = a(1:n:f(k-3))", "x = a(n:1:-(k+1))", "x = a(::max(k, 2))", "x = a(:n:2*(k+1))",
     "x = a(1:2)%b", "x = a%b(1:2)", "x = s(1:2)(3:4)", "x = 'abc'(1:2)", "x = a(i)(1:2)", "x = [a(1)%b, c]",
     # I/O with minimal and maximal control lists
+    "write(6, grp)", "read(5, grp, iostat=i)", "write(6, fmtvar) i", "write(unit=6, nml=grp)", "read(5, nml=grp)",
     "write(*,*)", "read(*,*)", "print *", "print *, a", "print 10\n10 format (a)", "write(6, 10)\n10 format ()",
     "read(5, *, iostat=i) a", "write(unit=6, fmt=*) a", "write(6, fmt='(a)') 'x'", "read 10, a\n10 format (i3)",
     "open(10)", "close(10)", "rewind 10", "rewind(10)", "backspace 10", "endfile 10", "flush 10", "flush(10)",
@@ -71,7 +75,8 @@ BODIES = [
     "interface assignment(=)\nend interface assignment(=)", "abstract interface\nend interface",
     "interface\nsubroutine s()\nend subroutine\nend interface", "interface\nfunction f()\nend function f\nend interface",
     "interface g\nmodule procedure a\nmodule procedure b, c\nprocedure d\nend interface",
-    "allocate(a(3))", "allocate(a(3), b(2), stat=i)", "allocate(t :: a)", "allocate(a, source=b)",
+    "allocate(a(3), stat=i, errmsg=m)", "allocate(a, source=b, errmsg=m)", "allocate(a(3), errmsg=m)", "allocate(a(3), b(2), stat=i)",
+    "allocate(a(3))", "allocate(t :: a)", "allocate(a, source=b)",
     "allocate(character(len=3) :: c)", "allocate(a(0:2, -1:1))", "deallocate(a)", "deallocate(a, b, stat=i, errmsg=m)",
     "nullify(p)", "nullify(p, q%r)", "p => a", "p => null()", "p(1:) => a", "p(1:2, 1:3) => a", "a%p => f(x)",
     "entry e", "entry e()", "entry e(a, b)", "entry e() result(r)", "entry e(*)",
